@@ -5,6 +5,7 @@
 import MotoModel.Proofs.DiskReadProps
 import MotoModel.Proofs.DiskByte0
 import MotoModel.Proofs.DiskRender
+import MotoModel.Proofs.DiskFewSides
 namespace Moto.C07
 open Moto Moto.Disk
 
@@ -26,6 +27,23 @@ theorem wellformed_image_extracted_exactly (fl : Flavour) (verbose : Bool) (arch
   intro k hk dir
   obtain ⟨bat, own, inv⟩ := h.2 k hk
   exact ⟨_, spec_files_inv inv, sideFiles_eq_spec inv dir⟩
+
+/-- **C07 (emulator images of one or two sides, and four-sided images of either flavour)**: an
+    image made of consistent sides with ordinary names — four of them, or one or two for the emulator
+    flavour — is loaded back as those sides, listed as `readReport 0`, and extracted (status 0) as
+    exactly the files of its sides, side after side under `side0`, `side1`, …, with the report
+    `readReport 1`. -/
+theorem images_of_one_two_or_four_sides (fl : Flavour) (verbose : Bool) (archive : Str) (into : Option Str) (img : Image)
+    (hall : ∀ sd ∈ img, SideOk sd ∧ NiceSide sd)
+    (hn : img.length = 4 ∨ (fl = .fd ∧ (img.length = 1 ∨ img.length = 2))) :
+    (list fl verbose (save fl img)).status = .ret 0
+    ∧ (list fl verbose (save fl img)).out = [readReport 0 verbose img]
+    ∧ (extract fl verbose archive into (save fl img)).status = .ret 0
+    ∧ (extract fl verbose archive into (save fl img)).writes = sidesFiles (Tape.targetDirOf archive into) img 0
+    ∧ (extract fl verbose archive into (save fl img)).out = [intoText into ++ readReport 1 verbose img] := by
+  obtain ⟨h1, h2⟩ := list_report_n fl verbose img hall hn
+  obtain ⟨h3, h4, h5⟩ := extract_n fl verbose archive into img hall hn
+  exact ⟨h2, h1, h3, h4, h5⟩
 
 /-- **C07 (reader ∘ independent writer)**: for every well-formed description of a side — files in
     any catalog slots, chains in any allocation order and fragmentation (duplicate-free, inside the
